@@ -4,12 +4,16 @@ import array
 import copy
 import functools
 import itertools
+import re
+import warnings
+import zlib
 
 import numpy
 from fractions import Fraction as Fr
 
 from lib import Case
 from deap import base
+from deap import creator
 from deap.tools import constraint
 
 ANCHORS = [("deap/tools/constraint.py", ["DeltaPenalty", "ClosestValidPenalty"])]
@@ -29,6 +33,15 @@ RULE = ("exhaustive: every weight-sign pattern in {+,-,0}^n for n=1..4 (random m
         "points made as repaired deepcopy clones carrying a fitness, re-evaluation of the same individual with other extras "
         "after storing its result; every call compared with the stateless model and checked by the oracle; random: n<=6, extra positional/keyword arguments, closest point identical to the "
         "individual, mis-sized vectors (zip truncation / IndexError guard; model comparison only). "
+        "Round 7 (in the first block): FAMILIES - histories over a family of related fitness classes created for the case (parent / overriding child / "
+        "inheriting child, grandchildren, siblings plus an unrelated class; class statement or creator.create) x decorator setups (one DeltaPenalty, one "
+        "ClosestValidPenalty, two objects of one class, one of each; every object decorates the same 1-2 functions) x every order of first use of the classes, "
+        "then random trees of 2-6 classes (a derived class may change the number of objectives) with 2-8 calls; the model resolves the weights from the class table. "
+        "KEYWORD NAMES - 75 names (every parameter / local / attribute name of constraint.py's wrappers, typical option names: verbose, debug, ...) x both decorators "
+        "x feasible/infeasible, the undecorated function's VALUE depends on its keyword options; the name `individual` (the wrappers' own positional parameter) is "
+        "judged against the undecorated function called the same way (both raise TypeError). FIXED WIDTH - distances as numpy int8/16/32/64, uint8/16/32/64 "
+        "scalars and arrays x constants (alpha) as Python int / float / numpy same type / numpy.int64 / numpy.float64 / numpy array / numpy constant with a Python-int "
+        "distance x magnitudes small / half range / edge of the range / constant beyond the range, both decorators (where doubles do the arithmetic: below 2**44). "
         "Non-trivial = distinct infeasible case, or feasible case with a distance function or extras")
 EXHAUSTIVE = {"quick": False, "thorough": False}
 TIME_BUDGET = {"quick": 60, "thorough": 900}
@@ -39,7 +52,11 @@ TRUSTED = ["IEEE-754: sums and products of the small dyadic inputs used here are
 ASSUMPTIONS = ["distances and alpha are non-negative finite numbers; constants, weights and fitness values are finite "
                "numbers (no NaN/inf); the distance function returns a number or a vector (a Sequence or a numpy array)",
                "a zero weight is treated by the code as +1; the statement names no worse direction for it, so the "
-               "oracle accepts either direction there while the model follows the code"]
+               "oracle accepts either direction there while the model follows the code",
+               "the evaluation functions of the harness name their first parameter `individual`, like the wrappers do: a keyword "
+               "of that name is a TypeError with and without decorator",
+               "inputs of the known finding F36 (DeltaPenalty, numpy fixed-width integer arithmetic that wraps or is refused by "
+               "numpy) are judged by the oracle alone; the model computes in exact numbers and gets no line for them"]
 EXPLANATION = ("Theorems C19.* are proved for every linearly ordered ring, every number of objectives and all "
                "feasibility/distance/closest/evaluation functions; the correspondence ties Core/Penalty.lean to "
                "deap.tools.constraint on exactly-representable inputs, including the call log of the wrapped function. "
@@ -49,7 +66,22 @@ EXPLANATION = ("Theorems C19.* are proved for every linearly ordered ring, every
                "IMPLEMENTATION has no other inputs is not proved but TESTED by the sequence streams: every call of a call "
                "sequence through one decorator object (several decorated functions, any order, stale stored fitnesses, "
                "re-evaluation) is compared with the model on its own, so a dependence on earlier calls, on other functions "
-               "decorated by the same object or on fitness values stored on the objects is a disagreement and an oracle failure.")
+               "decorated by the same object or on fitness values stored on the objects is a disagreement and an oracle failure. "
+               "C19.penalty_class_isolation (+ _own_weights, _inherits, _later_classes, penalty_history_independent) state that the model's outcome "
+               "depends on the world of fitness classes only through the weights the individual's OWN class resolves to (C01's FitClass model); the "
+               "family streams test that the implementation has no other per-class input (a value cached on a fitness class and found through "
+               "inheritance, seeded change C19-r7m2, is a disagreement and an oracle failure). C19.feasible_passthrough_kwargs states that the whole "
+               "keyword map arrives; the keyword-name stream tests it for every identifier the wrappers use themselves.")
+
+
+def frn(v):
+    """exact value of a number the implementation returned (a Fraction built from a numpy integer would keep
+    computing in that integer's width)"""
+    if isinstance(v, numpy.integer):
+        return Fr(int(v))
+    if isinstance(v, numpy.floating):
+        return Fr(float(v))
+    return Fr(v)
 
 
 def sfr(q):
@@ -78,6 +110,7 @@ def sv_tok(v):
     return "v:" + slist(Fr(x) for x in v["v"])
 
 
+NPI_REPS = ["int8", "int16", "int32", "int64", "uint8", "uint16", "uint32", "uint64"]
 VEC_REPS = ["tuple", "list", "ndarray", "array", "range"]
 SCA_REPS = ["int", "float", "float64"]
 
@@ -91,8 +124,8 @@ def sv_py(v, ints, seqtype, rep=None):
     if rep in ("pyint", "fraction"):
         one = exact if rep == "pyint" else (lambda q: Fr(q))
         return one(v["s"]) if "s" in v else tuple(one(x) for x in v["v"])
-    if rep in ("int8", "int16"):
-        ty = numpy.int8 if rep == "int8" else numpy.int16
+    if rep in NPI_REPS:
+        ty = getattr(numpy, rep)
         return ty(int(Fr(v["s"]))) if "s" in v else numpy.array([int(Fr(x)) for x in v["v"]], dtype=ty)
     if "s" in v:
         if rep == "float64":
@@ -179,7 +212,7 @@ def gkey(individual):
 class Call(object):
     """one call of the decorated function: its individual, closest point, tables and extras"""
 
-    def __init__(self, d, kind, earlier=()):
+    def __init__(self, d, kind, earlier=(), fam=None):
         self.d = d
         reuse = d.get("reuse")
         if reuse is not None and 0 <= reuse < len(earlier):
@@ -198,7 +231,11 @@ class Call(object):
             self.x = earlier[reuse].x
         else:
             self.x = Ind([next(_GID), 1, 7])        # every individual has its own genotype
-            self.x.fitness = fit_class(wpy)()
+            if fam is not None and "cls" in d:
+                self.x.fitness = fam[d["cls"]]()         # a member of this case's family of related fitness classes
+                assert [Fr(w) for w in self.x.fitness.weights] == self.ws
+            else:
+                self.x.fitness = fit_class(wpy)()
         cid = d.get("cid", 1)
         self.c = self.x if (kind == "closest" and cid == 0) else Ind([self.x[0], 0, 7])
         self.f0 = [Fr(v) for v in d["f0"]]
@@ -216,6 +253,7 @@ class Call(object):
         self.inc = [Fr(v) for v in d.get("inc", ["1"])]
         self.round = 0
         self.fi = d.get("fi", 0)                 # which of the decorated functions is called
+        self.di = d.get("di", 0)                 # through which of the decorator objects
         self.xfit = d.get("xfit")                # a (stale) fitness stored on the individual before the call
         self.cfit = d.get("cfit")                # a (stale) fitness stored on the closest point
         self.store = bool(d.get("store"))        # the result is stored as the individual's fitness afterwards
@@ -228,21 +266,80 @@ class Call(object):
         return self.dist if self.round == 0 else sv_add(self.dist, self.inc)
 
 
+F36 = "F36-delta-penalty-fixed-width-distance"
+F36_MARK = "[F36 numpy fixed-width integer arithmetic]"
+_OOB = re.compile(r"Python integer (-?\d+) out of bounds for (u?int\d+)")
+
+
+def kw_bonus(kw):
+    """what the undecorated evaluation functions of this harness add to every objective for their keyword options:
+    an evaluation function's result DEPENDS on its options, so an option that does not arrive changes the value"""
+    return Fr(sum(v * (1 + zlib.crc32(name.encode()) % 5) for name, v in kw.items()
+                  if isinstance(v, int) and not isinstance(v, bool)))
+
+
+def make_family(classes):
+    """a family of fitness classes, made afresh for this case: `p` = index of the concrete fitness class it derives
+    from (None = base.Fitness), `w` = the weights entry of its own class body (None = inherited), `via` = class
+    statement / type() or creator.create"""
+    fam = []
+    for i, cl in enumerate(classes):
+        parent = base.Fitness if cl.get("p") is None else fam[cl["p"]]
+        ns = {}
+        if cl.get("w") is not None:
+            ns["weights"] = tuple(int(Fr(w)) if cl.get("ints") and Fr(w).denominator == 1 else num(w) for w in cl["w"])
+        if cl.get("via") == "creator" or type(parent) is not type:
+            # (a class made by creator.create has creator's metaclass: only creator.create can derive from it)
+            name = "C19Fam_%d_%d" % (next(_GID), i)
+            creator.create(name, parent, **ns)
+            fam.append(getattr(creator, name))
+            delattr(creator, name)
+        else:
+            fam.append(type("FamFit%d" % i, (parent,), ns))
+    return fam
+
+
+def resolved(classes, c):
+    """the weights class `c` resolves to (its own entry, else its parent's, ...)"""
+    while c is not None:
+        if classes[c].get("w") is not None:
+            return list(classes[c]["w"])
+        c = classes[c].get("p")
+    return None
+
+
 def evaluate(d):
-    """One decorator instance, one decorated function, a SEQUENCE of calls (a single call for the kinds
-    `delta` / `closest`).  The model decorator is a pure function of its arguments, so every call is sent to
-    the model on its own; any dependence of the implementation on earlier calls shows up as a disagreement
-    and as an oracle failure."""
-    if d["k"] == "seq":
-        k, call_descs = d["deco"], d["calls"]
+    """A SEQUENCE of calls (a single call for the kinds `delta` / `closest`) of decorated functions: one or several
+    decorator objects (of one or both decorator classes), each decorating every one of 1-3 evaluation functions, called
+    on individuals whose fitness classes are independent classes or (kind `fam`) members of ONE family of related
+    classes created for this case.  The model decorator is a pure function of its arguments, so every call is sent to
+    the model on its own; any dependence of the implementation on earlier calls, on other objects of the decorator's
+    class or on what other fitness classes went through a decorator before shows up as a disagreement and as an
+    oracle failure."""
+    if d["k"] in ("seq", "fam"):
+        call_descs = d["calls"]
+        decos = d.get("decos")
+        if decos is None:
+            decos = [dict((key, d[key]) for key in ("delta", "delta_rep", "alpha", "alias", "ints", "lists") if key in d)]
+            decos[0]["kind"] = d["deco"]
+            decos[0]["has_dist"] = d["has_dist"]
     else:
-        k, call_descs = d["k"], [d]
-    has_dist = d["has_dist"] if "has_dist" in d else (call_descs[0].get("dist") is not None)
-    dints = bool(d.get("ints"))
-    dseq = list if d.get("lists") else tuple
+        call_descs = [d]
+        decos = [dict((key, d[key]) for key in ("delta", "delta_rep", "alpha", "alias", "ints", "lists") if key in d)]
+        decos[0]["kind"] = d["k"]
+        decos[0]["has_dist"] = d["has_dist"] if "has_dist" in d else (d.get("dist") is not None)
+    classes = d.get("classes")
+    fam = make_family(classes) if classes else None
+    fam_tok = None
+    if classes:
+        fam_tok = ";".join("%s:%s" % ("b" if cl.get("p") is None else cl["p"],
+                                      "none" if cl.get("w") is None else slist(Fr(w) for w in cl["w"])) for cl in classes)
+    deco_of = lambda cd: decos[cd.get("di", 0) % len(decos)]
     cs = []
     for cd in call_descs:
-        cs.append(Call(cd, k, cs))
+        if classes and "cls" in cd:
+            cd = dict(cd, w=resolved(classes, cd["cls"]), ints=classes[cd["cls"]].get("ints"))
+        cs.append(Call(cd, deco_of(cd)["kind"], cs, fam))
     nf = max(1, int(d.get("nfuncs", 1)))
     foff = [Fr(v) for v in d.get("foff", [])] + [Fr(0)] * nf
     keep = []
@@ -260,30 +357,30 @@ def evaluate(d):
         """the evaluation function handed to the decorator: a plain function, or (fwrap) what a user's own
         decorator stack produces - a functools.wraps wrapper whose `__wrapped__` is a DIFFERENT function, a
         functools.partial, a callable object, an lru_cache-like wrapper with attributes"""
-        def value(individual, shift, poison=0):
+        def value(individual, shift, kw, poison=0):
             cur = state["cur"]
-            return cur.seqtype(num(v + Fr(shift) + foff[j] + poison) for v in table[gkey(individual)])
+            return cur.seqtype(num(v + Fr(shift) + foff[j] + kw_bonus(kw) + poison) for v in table[gkey(individual)])
 
         def func(individual, shift=0, *a, **kw):
             calls.append((individual, shift, a, kw, j))
-            return value(individual, shift)
+            return value(individual, shift, kw)
         func.__name__ = "func%d" % j
         if fwrap == "wraps":
             def raw(individual, shift=0, *a, **kw):          # the bare objective the user wrapped: another function
                 calls.append((individual, shift, a, kw, "raw%d" % j))
-                return value(individual, shift, 4096)
+                return value(individual, shift, kw, 4096)
             outer = functools.wraps(raw)(func)               # sets outer.__wrapped__ = raw
             return outer
         if fwrap == "partial":
             def lead(tag_, individual, shift=0, *a, **kw):
                 calls.append((individual, shift, a, kw, j))
-                return value(individual, shift)
+                return value(individual, shift, kw)
             return functools.partial(lead, "lead")
         if fwrap == "callable":
             class Evaluator(object):
                 def __call__(_evaluator_obj, individual, shift=0, *a, **kw):
                     calls.append((individual, shift, a, kw, j))
-                    return value(individual, shift)
+                    return value(individual, shift, kw)
             return Evaluator()
         if fwrap == "attrs":
             func.__wrapped__ = None                          # attributes a caching / counting decorator leaves behind
@@ -340,33 +437,55 @@ def evaluate(d):
         # wrong argument order / wrong objects: a visibly different distance of the same shape
         return sv_py(sv_add(cur.cur_dist(), [Fr(1000)]), cur.ints, cur.seqtype, cur.d.get("dist_rep"))
 
-    if k == "delta":
-        cls = constraint.DeltaPenality if d.get("alias") else constraint.DeltaPenalty
-        deco = cls(feasibility, sv_py(d["delta"], dints, dseq, d.get("delta_rep")), *([distance1] if has_dist else []))
-    else:
-        cls = constraint.ClosestValidPenality if d.get("alias") else constraint.ClosestValidPenalty
-        alpha = Fr(d["alpha"])
-        deco = cls(feasibility, closest, int(alpha) if dints and alpha.denominator == 1 else num(alpha),
-                   *([distance2] if has_dist else []))
-    wrappeds = [deco(make_func(j)) for j in range(nf)]     # ONE decorator object decorates every function
+    def build(dd):
+        dints = bool(dd.get("ints"))
+        dseq = list if dd.get("lists") else tuple
+        if dd["kind"] == "delta":
+            cls = constraint.DeltaPenality if dd.get("alias") else constraint.DeltaPenalty
+            return cls(feasibility, sv_py(dd["delta"], dints, dseq, dd.get("delta_rep")),
+                       *([distance1] if dd["has_dist"] else []))
+        cls = constraint.ClosestValidPenality if dd.get("alias") else constraint.ClosestValidPenalty
+        alpha = Fr(dd["alpha"])
+        arep = dd.get("alpha_rep")
+        if arep in NPI_REPS or arep == "float64":
+            apy = getattr(numpy, arep)(int(alpha) if arep in NPI_REPS else num(alpha))
+        else:
+            apy = int(alpha) if (dints or arep == "pyint") and alpha.denominator == 1 else num(alpha)
+        return cls(feasibility, closest, apy, *([distance2] if dd["has_dist"] else []))
 
-    def call(c):
+    funcs = [make_func(j) for j in range(nf)]
+    # EVERY decorator object decorates every function (toolbox.decorate with the same object more than once; several
+    # objects of one decorator class alive together)
+    wrappeds = [[deco(f) for f in funcs] for deco in [build(dd) for dd in decos]]
+
+    def call(c, target=None):
         del calls[:]
         state["cur"] = c
         pos = ([num(c.shift)] if c.shift_mode == "pos" else []) + c.args
         kw = dict(c.kwargs)
         if c.shift_mode == "kw":
             kw["shift"] = num(c.shift)
+        target = target or wrappeds[c.di % len(decos)][c.fi % nf]
         try:
-            return wrappeds[c.fi % nf](c.x, *pos, **kw), None
-        except IndexError as e:
+            if c.d.get("fw"):
+                with warnings.catch_warnings():
+                    warnings.simplefilter("ignore", RuntimeWarning)      # numpy: "overflow encountered in scalar subtract"
+                    return target(c.x, *pos, **kw), None
+            return target(c.x, *pos, **kw), None
+        except (IndexError, OverflowError) as e:
             return None, e
+        except TypeError as e:
+            if "individual" in kw:
+                return None, e
+            raise
 
     kind = lambda v: "absent" if v is None else ("scalar" if "s" in v else "vector")
     lines, expects, tags = [], [], []
     first_orc = None
     any_nontrivial = False
     for ci, c in enumerate(cs):
+        dd = deco_of(c.d)
+        k, has_dist = dd["kind"], dd["has_dist"]
         if not has_dist:
             c.dist = None
         elif c.dist is None:
@@ -374,8 +493,22 @@ def evaluate(d):
         ws, n, x, feas, shift, args, kwargs = c.ws, c.n, c.x, c.feas, c.shift, c.args, c.kwargs
         dist_desc = c.dist
         fi = c.fi % nf
-        off = foff[fi]
+        off = foff[fi] + kw_bonus(kwargs)       # what THIS undecorated function adds for THIS call's options
         set_fit(x, c.xfit)
+        if "individual" in kwargs:
+            # a keyword named like the wrapper's own positional parameter: the call `evaluate(ind, individual=...)` is
+            # a TypeError for the undecorated function of this harness (its first parameter has that name too); the
+            # statement asks for what the undecorated function does when called the same way
+            und, und_exc = call(c, funcs[fi])
+            res, exc = call(c)
+            orc = None
+            if feas and (type(exc) is not type(und_exc) or (exc is None and res != und)):
+                orc = "feasible individual, keyword `individual`: undecorated %r / %r, decorated %r / %r" % (und, und_exc, res, exc)
+            if orc is not None and first_orc is None:
+                first_orc = orc
+            tags.append("%s/keyword-individual" % k)
+            del feas_calls[:]
+            continue
         res, exc = call(c)
         calls1 = list(calls)
         ident = lambda o: 0 if o is x else (1 if o is c.c else 9)
@@ -384,7 +517,7 @@ def evaluate(d):
         badres = None
         if exc is None:
             try:
-                res_tok = slist(Fr(v) for v in res)
+                res_tok = slist(frn(v) for v in res)
             except (TypeError, ValueError):
                 res_tok = "<%r>" % (res,)
                 badres = "decorated function returned %r: not one number per objective" % (res,)
@@ -392,18 +525,19 @@ def evaluate(d):
         else:
             res_tok = "raise"
         tag_sent = tag_of(args, kwargs)
+        wtok = "@" if fam_tok else slist(ws)
         if k == "delta":
-            line = "C19 delta %d %s %s %s %s %s %s" % (feas, slist(ws), sv_tok(d["delta"]), sv_tok(dist_desc),
-                                                        slist(v + off for v in c.f0), sfr(shift), tag_sent)
+            line = "delta %d %s %s %s %s %s %s" % (feas, wtok, sv_tok(dd["delta"]), sv_tok(dist_desc),
+                                                    slist(v + off for v in c.f0), sfr(shift), tag_sent)
         else:
-            line = "C19 closest %d %s %s %s %d %s %s %s %s" % (
-                feas, slist(ws), sfr(Fr(d["alpha"])), sv_tok(dist_desc), 0 if c.c is x else 1,
+            line = "closest %d %s %s %s %d %s %s %s %s" % (
+                feas, wtok, sfr(Fr(dd["alpha"])), sv_tok(dist_desc), 0 if c.c is x else 1,
                 slist(v + off for v in c.f0), slist(v + off for v in c.fc), sfr(shift), tag_sent)
-        lines.append(line)
-        expects.append("%s | %s" % (res_tok, call_tok))
+        line = ("C19 fam %s %d " % (fam_tok, c.d["cls"]) if fam_tok else "C19 ") + line
 
         # ---------------- oracle: the statement itself, on the implementation's outputs ----------------
         orc = None
+        f36 = False
         if badres is not None and first_orc is None:
             first_orc = badres
         extras_ok = lambda cl: (Fr(cl[1]) == shift and list(cl[2]) == args and cl[3] == kwargs and cl[4] == fi)
@@ -417,22 +551,49 @@ def evaluate(d):
             elif len(calls1) != 1 or calls1[0][0] is not x or not extras_ok(calls1[0]):
                 orc = "feasible individual: the wrapper's own evaluation function was not called exactly once on the individual with the extras; calls=%s" % call_tok
         elif k == "delta":
-            premise = well_sized(d["delta"], n) and well_sized(dist_desc, n)
+            premise = well_sized(dd["delta"], n) and well_sized(dist_desc, n)
             if premise:
                 if calls1:
                     orc = "infeasible individual: the evaluation function was called (%d times)" % len(calls1)
                 elif exc is not None or len(res) != n:
                     orc = "infeasible individual: expected %d penalised objectives, got %r %r" % (n, res, exc)
+                    if isinstance(exc, OverflowError) and len(cs) == 1:
+                        # numpy refuses a Python int operand that the fixed-width type of the other operand cannot
+                        # hold: the sign -1 next to an unsigned distance, or the constant next to `sign * distance`
+                        types = [numpy.iinfo(r) for r in (c.d.get("dist_rep"), dd.get("delta_rep")) if r in NPI_REPS]
+                        operands = [-1] + [int(Fr(q)) for q in Penalty_vals(dd["delta"]) if Fr(q).denominator == 1]
+                        if c.d.get("dist_rep") == "pyint" and dist_desc is not None:
+                            # a Python-int distance next to a numpy fixed-width CONSTANT: `sign * dist` is a Python int
+                            operands += [sg * int(Fr(q)) for q in Penalty_vals(dist_desc) for sg in (1, -1) if Fr(q).denominator == 1]
+                        if any(not (t.min <= v <= t.max) for t in types for v in operands):
+                            orc += " " + F36_MARK
+                            f36 = True
                 else:
-                    pen = [Fr(v) for v in res]
+                    pen = [frn(v) for v in res]
+                    wraps = []
                     for i in range(n):
-                        di, dl = sv_at(dist_desc, i, n), sv_at(d["delta"], i, n)
+                        di, dl = sv_at(dist_desc, i, n), sv_at(dd["delta"], i, n)
+                        bad = None
                         if not worse_ok(ws[i], pen[i], dl, di):
-                            orc = "objective %d: penalised value %s is not constant %s moved by distance %s in the worse direction for weight %s" % (i, pen[i], dl, di, ws[i])
-                            break
-                        if ws[i] * pen[i] > ws[i] * dl:
-                            orc = "objective %d: penalised value better than the constant" % i
-                            break
+                            bad = "objective %d: penalised value %s is not constant %s moved by distance %s in the worse direction for weight %s" % (i, pen[i], dl, di, ws[i])
+                        elif ws[i] * pen[i] > ws[i] * dl:
+                            bad = "objective %d: penalised value better than the constant" % i
+                        exact = dl + di if ws[i] < 0 else dl - di        # what the code computes, in exact numbers
+                        if bad is None:
+                            if ws[i] == 0 and pen[i] != exact and isinstance(res[i], numpy.integer):
+                                # zero weight: the statement names no worse direction, the wrapped value happens to be
+                                # the constant moved the other way; same phenomenon, no oracle failure, no model line
+                                f36 = True
+                            continue
+                        if (len(cs) == 1 and isinstance(res[i], numpy.integer) and exact.denominator == 1
+                                and (int(res[i]) - int(exact)) % (1 << (8 * res[i].dtype.itemsize)) == 0):
+                            wraps.append("%s; computed in numpy.%s: the exact value %s modulo 2**%d %s" % (
+                                bad, res[i].dtype.name, exact, 8 * res[i].dtype.itemsize, F36_MARK))
+                            continue
+                        orc = bad
+                        break
+                    if orc is None and wraps:
+                        orc, f36 = wraps[0], True
         else:
             premise = well_sized(dist_desc, n)
             fc_shifted = [v + shift + off for v in c.fc]
@@ -444,8 +605,8 @@ def evaluate(d):
                 elif exc is not None or len(res) != n:
                     orc = "infeasible individual: expected %d penalised objectives, got %r %r" % (n, res, exc)
                 else:
-                    pen = [Fr(v) for v in res]
-                    alpha = Fr(d["alpha"])
+                    pen = [frn(v) for v in res]
+                    alpha = Fr(dd["alpha"])
                     for i in range(n):
                         di = sv_at(dist_desc, i, n)
                         if not worse_ok(ws[i], pen[i], fc_shifted[i], alpha * di):
@@ -454,6 +615,10 @@ def evaluate(d):
                         if ws[i] * pen[i] > ws[i] * fc_shifted[i]:
                             orc = "objective %d: penalised value better than the closest valid fitness" % i
                             break
+        if not f36:
+            # (an input of the known finding F36 is judged by the oracle alone: the model computes in exact numbers)
+            lines.append(line)
+            expects.append("%s | %s" % (res_tok, call_tok))
         # never improves as the distance grows: same decorated function, larger distance
         if orc is None and premise and not feas and dist_desc is not None and exc is None:
             c.round = 1
@@ -462,12 +627,12 @@ def evaluate(d):
                 orc = "second call with a larger distance failed: %r %r" % (res2, exc2)
             else:
                 try:
-                    res2 = [Fr(v) for v in res2]
+                    res2 = [frn(v) for v in res2]
                 except (TypeError, ValueError):
                     orc = "second call returned %r: not one number per objective" % (res2,)
-                    res2 = [Fr(v) for v in res]
+                    res2 = [frn(v) for v in res]
                 for i in range(n):
-                    if ws[i] * Fr(res2[i]) > ws[i] * Fr(res[i]):
+                    if ws[i] * frn(res2[i]) > ws[i] * frn(res[i]):
                         orc = "objective %d improved (%s -> %s) when the distance grew" % (i, res[i], res2[i])
                         break
             c.round = 0
@@ -478,21 +643,28 @@ def evaluate(d):
         del feas_calls[:]
         if orc is not None and first_orc is None:
             first_orc = orc if len(cs) == 1 else "call %d of %d through one decorator: %s" % (ci + 1, len(cs), orc)
-        tags.append("%s/%s/%s/dist=%s/n=%d%s%s" % (
+        tags.append("%s/%s/%s/dist=%s/n=%d%s%s%s" % (
             k, "feasible" if feas else "infeasible",
-            ("delta=" + kind(d["delta"])) if k == "delta" else ("closest=" + ("self" if c.c is x else "other")),
+            ("delta=" + kind(dd["delta"])) if k == "delta" else ("closest=" + ("self" if c.c is x else "other")),
             kind(dist_desc), n, "" if premise else "/missized",
-            "/extras" if (args or kwargs) and c.shift_mode != "absent" else ""))
+            "/extras" if (args or kwargs) and c.shift_mode != "absent" else "",
+            "/fixed-width" if c.d.get("fw") else ""))
         any_nontrivial = any_nontrivial or (not feas) or dist_desc is not None or bool(args or kwargs)
     if len(cs) == 1:
         tag = tags[0]
     else:
         pats = set("".join("+" if w > 0 else "-" if w < 0 else "0" for w in c.ws) for c in cs)
-        tag = "seq/%s/calls=%d/infeasible=%d/sign-patterns=%d/lengths=%d/funcs=%d%s%s" % (
-            k, len(cs), sum(1 for c in cs if not c.feas), len(pats), len(set(c.n for c in cs)), nf,
+        kinds = sorted(set(dd["kind"] for dd in decos))
+        tag = "%s/%s/calls=%d/infeasible=%d/sign-patterns=%d/lengths=%d/funcs=%d%s%s%s" % (
+            d["k"], "+".join(kinds), len(cs), sum(1 for c in cs if not c.feas), len(pats), len(set(c.n for c in cs)), nf,
+            "/decorators=%d" % len(decos) if len(decos) > 1 else "",
             "/stored-fitness" if any(c.xfit or c.store or c.cmode in ("clone", "cstale") for c in cs) else "",
             "/re-evaluation" if any(c.d.get("reuse") is not None for c in cs) else "")
     return Case(d, lines, expects, first_orc, tag=tag, nontrivial=any_nontrivial)
+
+
+def Penalty_vals(v):
+    return [v["s"]] if "s" in v else list(v["v"])
 
 
 # ----------------------------------------------------------------------------------------------
@@ -529,7 +701,7 @@ def rand_extras(rng, d):
     if d["shift_mode"] == "pos" and rng.random() < 0.6:
         d["args"] = [rng.choice([0, 1, 7, "a", "bc"]) for _ in range(rng.randint(1, 3))]
     if rng.random() < 0.6:
-        d["kwargs"] = dict((rng.choice(["u", "v", "w", "func", "self", "alpha", "f_ind"]), rng.choice([0, 2, "z"]))
+        d["kwargs"] = dict((rng.choice(["u", "v", "w", "func", "self", "alpha", "f_ind", "verbose", "debug"]), rng.choice([0, 2, "z"]))
                            for _ in range(rng.randint(1, 2)))
 
 
@@ -704,8 +876,15 @@ def make_reps(rng):
 
 
 BIG = [2 ** 53 + 1, -(2 ** 53 + 1), 2 ** 63 - 1, -(2 ** 63), 10 ** 30 + 7, 2 ** 53 + 3, 12345678901234567891]
+# every parameter / local / attribute name used inside constraint.py's wrappers, and typical option names of evaluation
+# functions; `individual` is the wrappers' own positional parameter (see evaluate)
 KWNAMES = ["func", "self", "f_ind", "f_fbl", "feasible", "feasibility", "distance", "dist", "dists", "alpha", "delta",
-           "weights", "args", "kwargs", "valid", "fitness", "wrapper", "cls", "key", "values", "w", "d", "f"]
+           "weights", "args", "kwargs", "valid", "fitness", "wrapper", "cls", "key", "values", "w", "d", "f",
+           "fbty_fct", "fbl_fct", "dist_fct", "individual", "wrapped", "__wrapped__",
+           "verbose", "debug", "log", "trace", "quiet", "silent", "cache", "copy", "out", "default", "n", "k", "pop",
+           "toolbox", "penalty", "strict", "check", "seed", "rng", "scale", "offset", "power", "bounds", "lower", "upper",
+           "tol", "eps", "target", "data", "params", "options", "config", "context", "mode", "name", "index", "gen",
+           "dry_run", "raw", "x", "i", "a", "kw", "result", "penalized", "signs"]
 
 
 def make_exact(rng):
@@ -755,11 +934,13 @@ def make_kwnames(rng):
     for k in ("delta", "closest"):
         for name in KWNAMES:
             for feas in (True, False):
+                if name == "individual" and not feas:
+                    continue
                 n = rng.randint(1, 3)
                 d = make(rng, k, [rng.choice([1, -1]) for _ in range(n)], feas, "scalar", rng.choice(["absent", "scalar"]))
-                d["kwargs"] = {name: rng.choice([0, 2, "z"])}
-                if rng.random() < 0.3:
-                    d["kwargs"][rng.choice(KWNAMES)] = 5
+                d["kwargs"] = {name: rng.choice([1, 2, 3, "z"])}
+                if rng.random() < 0.3 and name != "individual":
+                    d["kwargs"][rng.choice([nm for nm in KWNAMES if nm != "individual"])] = 5
                 d["shift_mode"] = rng.choice(["absent", "kw", "pos"])
                 d.setdefault("shift", "3/2")
                 out.append(d)
@@ -842,6 +1023,205 @@ def make_orders(rng):
         out.append(d)
     return out
 
+DECO_KEYS = ("delta", "delta_rep", "alpha", "alias", "ints", "lists")
+FAMILY_SHAPES = [
+    # (parent index | None, "own" = first weights, "flip" = the parent's weights with some signs flipped, "inherit")
+    [(None, "own"), (0, "flip"), (0, "inherit")],           # parent, overriding child, inheriting child
+    [(None, "own"), (0, "flip"), (1, "inherit")],           # parent, overriding child, grandchild inheriting from it
+    [(None, "own"), (0, "inherit"), (1, "flip")],           # parent, inheriting child, overriding grandchild
+    [(None, "own"), (0, "flip"), (0, "flip"), (None, "own")],   # two overriding siblings and an unrelated class
+]
+DECO_SETUPS = [["delta"], ["closest"], ["delta", "delta"], ["closest", "closest"], ["delta", "closest"]]
+
+
+def flip_some(rng, ws):
+    """the weights with the sign of at least one objective reversed (other magnitudes may change too)"""
+    i0 = rng.randrange(len(ws))
+    out = []
+    for i, w in enumerate(ws):
+        q = Fr(w) if Fr(w) != 0 else Fr(1)
+        if i == i0 or rng.random() < 0.3:
+            q = -q
+        elif rng.random() < 0.3:
+            q = q * rng.choice([2, Fr(1, 2), 3])
+        out.append(sfr(q))
+    return out
+
+
+def make_family_case(rng, shape, setup, order, n=None, tail=None):
+    """a HISTORY in one process over ONE family of related fitness classes created for the case: 1-2 decorator objects
+    (of one or of both decorator classes), each decorating the same 1-2 evaluation functions; the first infeasible
+    individual of every class arrives in the given order of first use, then a random tail of further calls"""
+    n = n or rng.randint(1, 4)
+    classes = []
+    for (p, what) in shape:
+        if what == "own":
+            w = [sfr(rng.choice([1, -1]) * rng.choice(MAGS)) for _ in range(n)]
+        elif what == "flip":
+            w = flip_some(rng, resolved(classes, p))
+        else:
+            w = None
+        cl = {"p": p, "w": w}
+        if rng.random() < 0.3:
+            cl["via"] = "creator"
+        classes.append(cl)
+    signs = [1] * n
+    decos = []
+    for kind in setup:
+        proto = make(rng, kind, signs, False, rng.choice(["scalar", "vector"]), "scalar")
+        dd = dict((key, proto[key]) for key in DECO_KEYS if key in proto)
+        dd["kind"] = kind
+        dd["has_dist"] = rng.random() < 0.8
+        decos.append(dd)
+    nfuncs = rng.choice([1, 1, 2])
+    seq = [(c, False) for c in order]
+    for _ in range(rng.randint(0, 3) if tail is None else tail):
+        seq.append((rng.randrange(len(classes)), rng.random() < 0.3))
+    calls = []
+    for (c, feas) in seq:
+        di = rng.randrange(len(decos))
+        cd = make(rng, decos[di]["kind"], signs, feas, "scalar", rng.choice(["scalar", "vector"]))
+        cd = dict((key, v) for key, v in cd.items() if key not in ("k", "w") + DECO_KEYS)
+        cd["cls"], cd["di"], cd["fi"] = c, di, rng.randrange(nfuncs)
+        calls.append(cd)
+    d = {"k": "fam", "classes": classes, "decos": decos, "calls": calls}
+    if nfuncs > 1:
+        d["nfuncs"] = nfuncs
+        d["foff"] = [sfr(Fr(v)) for v in rng.sample([0, 1, -3, 16, Fr(5, 2), 100], nfuncs)]
+    return d
+
+
+def make_families(rng):
+    """fixed list: every family shape x every decorator setup x orders of first use of the classes (all 6 orders of a
+    three-class family; parents before children, children before parents, ...)"""
+    out = []
+    for shape in FAMILY_SHAPES:
+        perms = list(itertools.permutations(range(len(shape))))
+        if len(perms) > 6:
+            perms = rng.sample(perms, 6)
+        for setup in DECO_SETUPS:
+            for order in perms:
+                out.append(make_family_case(rng, shape, setup, list(order)))
+    return out
+
+
+def make_family_random(rng):
+    """a random tree of 2-6 fitness classes (a derived class may change the NUMBER of objectives: scalar constants only
+    then), random history of 2-8 calls"""
+    n = rng.randint(1, 4)
+    shape = [(None, "own")]
+    for i in range(1, rng.randint(2, 6)):
+        shape.append((None, "own") if rng.random() < 0.15 else (rng.randrange(i), rng.choice(["flip", "flip", "inherit"])))
+    setup = rng.choice(DECO_SETUPS)
+    d = make_family_case(rng, shape, setup, [], n=n, tail=0)
+    ncalls = rng.randint(2, 8)
+    proto = make_family_case(rng, shape, setup, [rng.randrange(len(shape)) for _ in range(ncalls)], n=n, tail=0)
+    d["calls"] = proto["calls"]
+    for c in d["calls"]:
+        c["di"] = c["di"] % len(d["decos"])
+        c["feas"] = rng.random() < 0.25
+        # the call's decorator kind may differ from the one its tables were made for: give it what either needs
+        c.setdefault("fc", c["f0"])
+        c.setdefault("cid", 1)
+    for key in ("nfuncs", "foff"):
+        if key in proto:
+            d[key] = proto[key]
+        else:
+            d.pop(key, None)
+    for c in d["calls"]:
+        c["fi"] = c["fi"] % max(1, d.get("nfuncs", 1))
+    return d
+
+
+FW_CONST = {"delta": ["pyint", "float", "np-same", "int64", "float64", "np-vector-same", "np-const-pydist"],
+            "closest": ["pyint", "float", "np-same", "float64"]}
+FW_MAGS = ["small", "half", "edge", "beyond"]
+
+
+def make_fixedwidth(rng):
+    """distances handed over as numpy FIXED-WIDTH integers (scalars and arrays of int8 ... uint64: a Hamming / Chebyshev
+    distance computed on an integer genome), for both decorators, with Python-int / float / numpy constants (alpha for
+    ClosestValidPenalty) and magnitudes on both sides of the width's range (fixed family list, random values).  Wherever
+    the arithmetic would be done in doubles (float constants, ClosestValidPenalty's float signs, numpy's int64 x uint64
+    promotion) magnitudes stay below 2**48 so that the exact value is a double."""
+    out = []
+    for k in ("delta", "closest"):
+        for rep in NPI_REPS:
+            info = numpy.iinfo(rep)
+            lo, hi = int(info.min), int(info.max)
+            for shape in ("scalar", "vector"):
+                for crep in FW_CONST[k]:
+                    for mag in FW_MAGS:
+                        n = rng.randint(1, 3)
+                        signs = [rng.choice([1, -1, -1, 0]) for _ in range(n)]
+                        d = make(rng, k, signs, False, "scalar", shape)
+                        for key in ("delta_rep", "dist_rep", "ints", "alias"):
+                            d.pop(key, None)
+                        floaty = k == "closest" or crep in ("float", "float64") or \
+                            (crep == "int64" and numpy.result_type(numpy.int64, rep).kind == "f")
+                        top = min(hi, 1 << 44) if floaty else hi          # the range the values are drawn around
+                        bot = max(lo, -(1 << 44)) if floaty else lo
+                        j = lambda: rng.randint(0, 3)
+                        if mag == "small":
+                            dist = lambda: rng.randint(0, 20)
+                            const = lambda: rng.randint(-20, 20)
+                        elif mag == "half":
+                            dist = lambda: top // 2 + j()
+                            const = lambda: rng.choice([top // 2 - j(), -(top // 2) + j(), top // 2 + 1 + j()])
+                        elif mag == "edge":
+                            dist = lambda: top - j()
+                            const = lambda: rng.choice([j(), -j() - 1, top - j(), bot + j()])
+                        else:
+                            dist = lambda: rng.choice([top - j(), top // 3, j() + 1])
+                            const = lambda: rng.choice([top + 1 + j(), bot - 1 - j(), 3 * top + j()])
+                        if k == "closest":
+                            # ClosestValidPenalty: dist * alpha must stay a double
+                            dist0 = dist
+                            dist = lambda: min(dist0(), top)
+                        d["dist"] = {"s": sfr(Fr(dist()))} if shape == "scalar" else {"v": [sfr(Fr(dist())) for _ in range(n)]}
+                        d["dist_rep"] = rep
+                        d["inc"] = ["0"]
+                        d["fw"] = True
+                        if k == "delta":
+                            crep_eff = crep
+                            clip = None
+                            if crep == "np-const-pydist":
+                                # the CONSTANT is the numpy fixed-width integer, the distance a Python int
+                                clip, crep_eff = (lo, hi), rep
+                                d["dist_rep"] = "pyint"
+                            elif crep in ("np-same", "np-vector-same"):
+                                clip, crep_eff = (lo, hi), rep
+                            elif crep == "int64":
+                                clip = (-(1 << 63), (1 << 63) - 1)
+                            vec = crep == "np-vector-same" or (crep in ("pyint", "float", "float64") and rng.random() < 0.4)
+
+                            def cv():
+                                v = const()
+                                if clip:
+                                    v = max(clip[0], min(clip[1], v))
+                                return sfr(Fr(v))
+                            d["delta"] = {"v": [cv() for _ in range(n)]} if vec else {"s": cv()}
+                            if crep_eff == "float" and vec:
+                                crep_eff = "tuple"
+                            if crep_eff == "float64" and vec:
+                                crep_eff = "ndarray"
+                            d["delta_rep"] = crep_eff
+                        else:
+                            d["alpha"] = sfr(Fr(rng.randint(1, 9)))
+                            d["alpha_rep"] = rep if crep == "np-same" else crep
+                            if d["alpha_rep"] in NPI_REPS and int(d["alpha"]) > hi:
+                                d["alpha"] = "1"
+                            big = lambda: sfr(Fr(rng.choice([j(), -j(), top - j(), bot + j()])))
+                            d["fc"] = [big() for _ in range(n)]
+                            d["f0"] = [big() for _ in range(n)]
+                            d["cid"] = 1
+                            if rng.random() < 0.5:
+                                d["ints"] = True
+                        if floaty and d.get("shift_mode") != "absent":
+                            d["shift"] = sfr(Fr(rng.randint(-8, 8)))
+                        out.append(d)
+    return out
+
 
 def generate(tier, rng, mult):
     thorough = tier == "thorough"
@@ -854,6 +1234,10 @@ def generate(tier, rng, mult):
         for d in make_exact(rng):
             yield d
         for d in make_kwnames(rng):
+            yield d
+        for d in make_families(rng):
+            yield d
+        for d in make_fixedwidth(rng):
             yield d
         for _ in range(40):
             yield make_narrow(rng)
@@ -871,6 +1255,8 @@ def generate(tier, rng, mult):
                 yield make(rng, "delta", signs, True, rng.choice(["scalar", "vector"]),
                            rng.choice(["absent", "scalar", "vector"]))
                 yield make(rng, "closest", signs, True, None, rng.choice(["absent", "scalar", "vector"]))
+    for _ in range((6000 if thorough else 600) * mult):
+        yield make_family_random(rng)
     for _ in range((30000 if thorough else 3000) * mult):
         yield make_seq(rng)
     for _ in range((2000 if thorough else 200) * mult):
@@ -886,7 +1272,7 @@ def generate(tier, rng, mult):
 
 
 def shrink(d):
-    if d["k"] == "seq":
+    if d["k"] in ("seq", "fam"):
         calls = d["calls"]
         if len(calls) > 1:
             for i in range(len(calls)):
@@ -959,4 +1345,10 @@ def shrink(d):
 
 
 def classify(desc, msg, known):
+    """F36: DeltaPenalty's `d - w * dist` with Python-int signs is carried out in the fixed-width integer type of a numpy
+    distance (or constant) and wraps / numpy refuses the Python int operand.  Only the oracle text that `evaluate`
+    writes for exactly that input class (single call, DeltaPenalty, infeasible, every wrong objective equal to the
+    exact value modulo 2**width of its numpy integer type, or numpy's out-of-bounds OverflowError) carries the mark."""
+    if desc.get("k") == "delta" and not desc.get("feas") and msg is not None and msg.endswith(F36_MARK):
+        return F36
     return None
